@@ -24,7 +24,8 @@ Inductive value : Type :=
    exactly one type and needs no well-formedness side condition                        *)
 | VLNum (n : nty) (zs : list Z)
 | VLBool (bs : list bool)
-| VLStr (ss : list string).
+| VLStr (ss : list string)
+| VBox (d : dom) (n : nty) (z : Z).   (* a value of BoxA(T) / BoxB(T): Rep == T *)
 
 Definition bty_of_nty (n : nty) : bty := match n with NMI => BMI | NInt => BInt end.
 
@@ -36,6 +37,7 @@ Definition type_of (v : value) : ty :=
   | VLNum n _ => TList (bty_of_nty n)
   | VLBool _ => TList BBool
   | VLStr _ => TList BStr
+  | VBox d n _ => TBox d n
   end.
 
 (* the elements of a list value, as values *)
@@ -90,6 +92,7 @@ Definition show (v : value) : string :=
   | VLNum _ zs => ("[" ++ sep_strs (map dec_of_Z zs) ++ "]")%string
   | VLBool bs => ("[" ++ sep_strs (map (fun b : bool => if b then "T"%string else "F"%string) bs) ++ "]")%string
   | VLStr ss => ("[" ++ sep_strs ss ++ "]")%string
+  | VBox _ _ _ => "?box"%string          (* no OutputType: never printed by a well-typed program *)
   end.
 
 (* ---- library operations ---- *)
@@ -100,6 +103,9 @@ Inductive pres : Type := PVal (v : value) | PUndef | PStuck.
 Definition num_abs (n : nty) (a : Z) : Z := if a <? 0 then norm n (- a) else a.
 Definition num_mod (n : nty) (a b : Z) : Z :=
   let r := Z.rem a b in if r <? 0 then norm n (r + num_abs n b) else r.
+
+Definition box_bump (d : dom) (n : nty) (z : Z) : Z :=
+  match d with DA => norm n (z + 1) | DB => norm n (z + z) end.
 
 Fixpoint list_eqb {A : Type} (eqb : A -> A -> bool) (a b : list A) : bool :=
   match a, b with
@@ -195,6 +201,16 @@ Definition prim_eval (p : prim) (vs : list value) : pres :=
   | PLNth _, [VLStr xs; VNum _ i] =>
       if (1 <=? i) then match nth_error xs (Z.to_nat (i - 1)) with Some x => PVal (VStr x) | None => PUndef end
       else PUndef
+  (* BoxCat(T): see Print.dom_decls for the text.  bump: BoxA adds 1, BoxB doubles.
+     twice is the category default bump(bump x): it reaches the DOMAIN's bump through %.
+     scale: BoxA takes the default box(unbox x * k); BoxB's own definition rep x * k + 1
+     over-rides it.  All arithmetic is T's (MachineInteger wraps).                        *)
+  | PBox d n, [VNum _ z] => PVal (VBox d n z)
+  | PUnbox _ _, [VBox _ n z] => PVal (VNum n z)
+  | PBump _ _, [VBox d n z] => PVal (VBox d n (box_bump d n z))
+  | PTwice _ _, [VBox d n z] => PVal (VBox d n (box_bump d n (box_bump d n z)))
+  | PScale _ _, [VBox d n z; VNum _ k] =>
+      PVal (VBox d n (match d with DA => norm n (z * k) | DB => norm n (norm n (z * k) + 1) end))
   | _, _ => PStuck
   end.
 
